@@ -285,6 +285,11 @@ def run(repo, chk):
                    f'{fname}::{text}', 'the runtime defeat word may only be written by Mov in the try/stop arm '
                    'and the exit arms of gen_stmts', GEN, line)
     chk.floor('writers of the defeat word', len(writers), 3)
+    # typestate of the defeat word (shared with C02): outside a try/stop it must be the designated halt,
+    # otherwise `Jump([defeat]); Halt` at a defeat site is not averted by any enclosing jump
+    from . import c02
+    from ..report import Remap
+    c02.run(repo, Remap(chk, {'C02.T3': 'C03.J5', 'C02.T4': 'C03.J5', 'C02.T7': 'C03.J5'}))
     chk.sample({'jump_site_forms': {s: sorted(f) for s, f in list(sorted(site_forms.items()))[:10]}})
     chk.sample({'stdlib_jump_roles': [f'{at.ins[i]} -> {r[0]}' for i, r in list(sorted(tf.jumps.items()))[:8]]})
     chk.not_decided = ['the VM implementation of the Turing jump', 'behaviour excluded by the property (UB)']
